@@ -118,7 +118,7 @@ Handle(e) ==
     [] e.e = "cbb" -> HCbb(e)
     [] e.e = "srv" -> HSrvOk(e)
     [] e.e = "ret" -> HRet(e)
-    [] e.e = "crash" -> Stop
+    [] e.e = "crash" -> Rej("c08.crash." \o e.sum)     \* a sanitizer report or abnormal end inside a history of this family
     [] OTHER -> Skip
 
 Verdict == [verdict |-> IF bad /\ why.label # "" THEN "REJ" ELSE "ACC", id |-> hid, line |-> why.line, label |-> why.label]
